@@ -4,10 +4,92 @@
     then default children are entered until stable, and only then does the next transition start;
     transitions of one macro step run by decreasing source depth, ties by source name, orthogonal
     siblings are entered/exited in name order."
-   (The last sentence of C03 -- the trace and the configuration are what the MacroStep says -- is
-    TraceProofs.C03_trace_truth / C03_config_truth / C03_macro_config.)
+   (The last sentence of C03 -- the code fragments executed and the resulting configuration are what
+    the MacroStep says -- is TraceProofs.C03_trace_truth / C03_config_truth / C03_macro_config; the
+    order of exits / action / entries INSIDE one micro step is TraceProofs.C08_apply_step_points.)
 
-   HEADER TO BE COMPLETED AT THE END. *)
+   STATUS: every statement asked for is proved in full for the model of Interp.v; nothing is
+   `_partial`, nothing is `_refuted` (the model already contains the repaired exit order
+   `sort exit_order_leb (descendants_for ..)`, so DESIGN.md's planned C03_exit_order_refuted does not
+   apply to it).  No axiom: every Print Assumptions at the end says "Closed under the global context".
+
+   VOCABULARY
+     stab_run s l s'        l = the micro steps of one complete stabilisation from s to s': each one is
+                            the step _create_stabilization_step computes in the state reached so far
+                            and the run ends exactly when none is due (css (m_i s') = None).
+     blocks_run s ps ex s'  the planned steps ps applied one after the other, each followed by a
+                            complete stab_run; ex = the executed steps ( = run_steps ).
+     trans_blocks cfg ev s ts ex s'
+                            the same for the steps create_step sc cfg ev ti of the transitions
+                            ts = t1..tk:  ex = [a1] ++ stab1 ++ [a2] ++ stab2 ++ ..  with
+                            ms_trans ai = Some (index of ti), ms_exited/ms_entered ai = those of
+                            create_step, every element of stab_i has ms_trans = None (and no event),
+                            and css = None in the state reached after [ai] ++ stab_i, i.e. BEFORE
+                            a(i+1) is applied.
+     atomic_shape ts ex     the shape alone (no intermediate states).
+     src_before a b         source of a strictly deeper than the source of b, or equal depth and
+                            strictly smaller source name (String.ltb).
+     is_path p l            l is a downward path: par (first) = p, each further element is a child of
+                            its predecessor.
+     exited_of cfg lbl      filter active (sort exit_order_leb (desc lbl)) ++ [lbl if active].
+
+   MAIN THEOREMS                                                         (hypotheses)
+     1  C03_atomic          i_initialized = true, execute_once = inl (Some (t, steps))       (none)
+                            -> sel := result of select_transitions (on the state after the time
+                               update; same configuration), and either sel = [] and steps =
+                               [event-only step] ++ stab, or sel <> [], ts := sort_transitions sel,
+                               trans_blocks cfg ev' s2 ts steps s3 /\ atomic_shape ts steps, m_i s' =
+                               m_i s3, css (m_i s') = None.
+        C03_atomic_first    i_initialized = false: steps = a :: stab, a enters the root only,   (none)
+                            stab is a complete stabilisation.
+        run_steps_blocks, stabilize_stab_run, blocks_trans_blocks: the underlying unfoldings.
+     2  C03_transition_order  sort_transitions ts = inl ts' -> Permutation, StronglySorted and     (none)
+                            Sorted w.r.t. trans_order_leb, NoDup (map source ts') (from
+                            check_pairs = None via C04_check_pair_none), StronglySorted src_before,
+                            and for ts' = l1 ++ a :: l2 ++ b :: l3: sources differ /\ src_before a b.
+     3  C03_exit_order      create_step with a target: lbl = last_before lca .. is under the source
+                            with par lbl = lca; In x exited <-> In x cfg /\ under lbl x; NoDup exited;
+                            StronglySorted exit_order_leb (depth descending, name ascending);
+                            every state after all its active descendants; equal depth -> strictly
+                            by name; lbl last.                       (Hne Hanc Hpc Hkids_nodup Hdesc_complete)
+        desc_nodup          NoDup (descendants_for sc a)  (bfs never outputs a state twice) (same five)
+     4  C03_entry_order     entered list of a transition step: is_path lca entered, ends with the
+                            target, = {x | under x tgt /\ below lca x}, NoDup, each element is
+                            immediately preceded by its parent, a parent that is entered comes first.
+                                                                                        (Hne Hanc)
+        C03_entry_order_stab  css i = Some (inl step): ms_trans = None and one of
+                            - compound leaf: entered = [initial];
+                            - active orthogonal state n: entered = sort_names (inactive children of n),
+                              sorted by name, all children of n of depth (depth n + 1);
+                            - history leaf h: exited = [h], entered = sort enter_order_leb (memory h)
+                              (or [default memory]), sorted by (depth, name), parents before children
+                              (C06_restore_parents_first);
+                            - final child f of the root r: exited = [f; r].         (Hne Hanc Hpc)
+     tree_okb / tree_okb_sound  a boolean checker for the five tree hypotheses.
+     5  Module C03Examples  chart0: orthogonal P with regions DECLARED B, C, A.  ex_exit_order
+                            (exit a1,b1,c1,A,B,C,P), ex_exit_order_not_declaration (differs from the
+                            reversed declaration order of unrepaired sismic), ex_exit_order_deep,
+                            ex_entry_order, ex_transition_order, ex_first_step (regions entered A,B,C),
+                            ex_atomic ([t(a1->a2); default entry a21; t(b1->b2)], declared in the
+                            other order), ex_exit_run, ex_orthogonal_entry, ex_history_entry, and
+                            *_applies: the hypotheses of each theorem hold on these instances.
+
+   TREE HYPOTHESES (Section Tree; the same statements as in Section WF of C02Proofs.v, a subset):
+     Hne   forall n, par n <> Some ""                                (WF1)
+     Hanc  forall a b, In b (anc a) -> depth b < depth a             (WF2)
+     Hpc   forall c p, In c (kids p) <-> par c = Some p              (WF2)
+     Hkids_nodup     forall p, NoDup (kids p)                        (WF2)
+     Hdesc_complete  forall a d, In a (anc d) -> In d (desc a)       (WF2)
+   NOT needed: Hroot, Hnames, Hone_root, Hcomposite, Hinitial, Hregions, Hhistory, Hcross, NoDup cfg,
+   and no invariant on the interpreter state.
+
+   REMARKS
+     * _create_steps builds ALL transition steps from the configuration at the beginning of the
+       macro step (argument cfg of trans_blocks), as sismic does; "active" in C03_exit_order means
+       active in that configuration.  That each exited state is still active when its step runs is
+       C03_config_truth (all_active) / the absence of EKey.
+     * C03_atomic's first disjunct (no transition, an event is consumed) is part of the statement
+       because execute_once returns a MacroStep in that case as well. *)
 From Coq Require Import String List Bool ZArith Sorted Permutation Lia.
 From Sismic Require Import Base Chart Interp Spec.
 From SismicProofs Require C04Proofs C06Proofs.
@@ -958,12 +1040,13 @@ Module C03Examples.
   Example chart0_tree_ok : tree_okb chart0 = true.
   Proof. vm_compute. reflexivity. Qed.
 
-  Definition T0 := tree_okb_sound chart0 chart0_tree_ok.
-  Definition Hne0 := proj1 T0.
-  Definition Hanc0 := proj1 (proj2 T0).
-  Definition Hpc0 := proj1 (proj2 (proj2 T0)).
-  Definition Hkn0 := proj1 (proj2 (proj2 (proj2 T0))).
-  Definition Hdc0 := proj2 (proj2 (proj2 (proj2 T0))).
+  Lemma chart0_tree :
+    (forall n, parent_for chart0 n <> Some "")
+    /\ (forall a b, In b (ancestors_for chart0 a) -> (depth_for chart0 b < depth_for chart0 a)%Z)
+    /\ (forall c p, In c (children_for chart0 p) <-> parent_for chart0 c = Some p)
+    /\ (forall p, NoDup (children_for chart0 p))
+    /\ (forall a d, In a (ancestors_for chart0 d) -> In d (descendants_for chart0 a)).
+  Proof. exact (tree_okb_sound chart0 chart0_tree_ok). Qed.
 
   (* ---------------------------------------------------------------- exit order *)
   (* everything is active (a1, b1, c1 in the three regions); P -> out exits both... all three regions *)
@@ -998,6 +1081,7 @@ Module C03Examples.
     /\ (forall l1 x l2 y l3, exited = l1 ++ x :: l2 ++ y :: l3 ->
           depth_for chart0 x = depth_for chart0 y -> str_ltb x y = true).
   Proof.
+    destruct chart0_tree as (Hne0 & Hanc0 & Hpc0 & Hkn0 & Hdc0).
     pose proof (C03_exit_order chart0 Hne0 Hanc0 Hpc0 Hkn0 Hdc0 cfg2 None (2, tX) "out" eq_refl) as H.
     cbv zeta in H. destruct H as (_ & _ & H3 & H4 & _ & H6 & H7 & _).
     cbv zeta. split; [exact H3|]. split; [exact H4|]. split; [exact H6|exact H7].
@@ -1015,6 +1099,7 @@ Module C03Examples.
     let entered := ms_entered (create_step chart0 ["root"; "out"] None (3, tIn)) in
     is_path chart0 (Some "root") entered /\ last entered "a21" = "a21" /\ NoDup entered.
   Proof.
+    destruct chart0_tree as (Hne0 & Hanc0 & _).
     pose proof (C03_entry_order chart0 Hne0 Hanc0 ["root"; "out"] None (3, tIn) "a21" eq_refl) as H.
     cbv zeta in H. destruct H as (H1 & _ & H3 & _ & H5 & _). cbv zeta. split; [exact H1|].
     split; [exact H3|exact H5].
@@ -1065,7 +1150,7 @@ Module C03Examples.
   Example ex_first_step_applies :
     i_initialized (m_i S0) = false
     /\ exists s' t steps, run S0 = (s', inl (Some (t, steps))).
-  Proof. split; [reflexivity|]. eexists. eexists. eexists. vm_compute. reflexivity. Qed.
+  Proof. split; [vm_compute; reflexivity|]. eexists. eexists. eexists. vm_compute. reflexivity. Qed.
 
   (* macro step for e: two transitions (declared tB then tA; executed tA then tB); the first is
      followed by the default entry of a21 BEFORE the second starts *)
@@ -1085,19 +1170,22 @@ Module C03Examples.
   (* the hypotheses of C03_atomic hold for this run, and its conclusion *)
   Example ex_atomic_applies :
     i_initialized (m_i S1) = true
-    /\ forall s' t steps, run S1 = (s', inl (Some (t, steps))) ->
+    /\ forall s' t steps,
+         execute_once unit unit exec0 eval0 emit0 chart0 20 0 S1 = (s', inl (Some (t, steps))) ->
          create_stabilization_step unit chart0 (m_i s') = None
          /\ exists sel ts, sel <> [] /\ sort_transitions unit unit chart0 sel S1 = (S1, inl ts)
                            /\ atomic_shape ts steps.
   Proof.
-    split; [reflexivity|]. intros s' t steps H.
-    destruct (C03_atomic unit unit exec0 eval0 emit0 chart0 20 0 S1 s' t steps eq_refl H)
+    assert (i_initialized (m_i S1) = true) as Hi by (vm_compute; reflexivity).
+    split; [exact Hi|]. intros s' t steps H.
+    destruct (C03_atomic unit unit exec0 eval0 emit0 chart0 20 0 S1 s' t steps Hi H)
       as (s0 & s1 & s2 & s3 & sel & H0 & Hsel & _ & _ & _ & Hst & Hcases).
     split; [exact Hst|].
     destruct Hcases as [(-> & e & _ & Hb)|(Hne & ts & Hsort & _ & Hshape)].
-    - exfalso. unfold run in H. vm_compute in H. inversion H; subst.
+    - exfalso. vm_compute in H. inversion H; subst s' t steps. clear H.
       inversion Hb as [|? p ps sa a stab sb rest ? Ha Hs Hr]; subst.
-      inversion Hr; subst. destruct stab; discriminate.
+      apply (apply_step_inv unit unit exec0 eval0 emit0 chart0 (fun _ => True)) in Ha.
+      destruct Ha as (ent & exi & _ & _ & _ & _ & _ & _ & A2 & _). simpl in A2. discriminate.
     - exists sel, ts. split; [exact Hne|]. split; [apply Hsort|exact Hshape].
   Qed.
 
@@ -1107,6 +1195,50 @@ Module C03Examples.
     /\ map ms_entered (steps_of (run S2)) = [["out"]]
     /\ i_config (m_i S3) = ["root"; "out"].
   Proof. vm_compute. repeat split. Qed.
+
+  (* ---------------------------------------------------------------- stabilisation steps *)
+  (* P active without its regions: they are entered in name order (declared B, C, A) *)
+  Definition iP : istate unit := mkIState 0 true 0 [] ["root"; "P"] [] [] [] [] [] false tt [].
+  Example ex_orthogonal_entry :
+    create_stabilization_step unit chart0 iP = Some (inl (mkMicro None None ["A"; "B"; "C"] [] [])).
+  Proof. vm_compute. reflexivity. Qed.
+
+  (* a chart with a deep history state h below A; the memory lists the inner state first *)
+  Definition chartH : chart :=
+    mkChart "c03h" None None
+      [st "root" KCompound (Some "A"); st "A" KCompound (Some "a1"); st "h" KDeep None;
+       st "a1" KCompound (Some "a11"); st "a11" KBasic None]
+      [("root", None); ("A", Some "root"); ("h", Some "A"); ("a1", Some "A"); ("a11", Some "a1")]
+      [(None, ["root"]); (Some "root", ["A"]); (Some "A", ["h"; "a1"]); (Some "h", []);
+       (Some "a1", ["a11"]); (Some "a11", [])]
+      [].
+  Definition iH : istate unit :=
+    mkIState 0 true 0 [("h", ["a11"; "a1"])] ["root"; "A"; "h"] [] [] [] [] [] false tt [].
+
+  Example chartH_tree_ok : tree_okb chartH = true.
+  Proof. vm_compute. reflexivity. Qed.
+
+  (* the history state is replaced by its memory, parents first *)
+  Example ex_history_entry :
+    create_stabilization_step unit chartH iH = Some (inl (mkMicro None None ["a1"; "a11"] ["h"] [])).
+  Proof. vm_compute. reflexivity. Qed.
+
+  Example ex_entry_order_stab_applies :
+    forall step, create_stabilization_step unit chartH iH = Some (inl step) ->
+      ms_trans step = None
+      /\ forall l1 a l2 b, ms_entered step = l1 ++ a :: l2 ->
+           In b (ancestors_for chartH a) -> In b (ms_entered step) -> In b l1.
+  Proof.
+    intros step H.
+    destruct (tree_okb_sound chartH chartH_tree_ok) as (N & A & P & _ & _).
+    destruct (C03_entry_order_stab unit chartH N A P iH step H) as (Tr & _ & Hc).
+    split; [exact Tr|].
+    rewrite ex_history_entry in H. inversion H; subst step. clear H.
+    destruct Hc as [(n & s0 & i0 & _ & _ & _ & _ & _ & E)|[(n & s0 & _ & _ & _ & _ & E & _)|
+                    [(h & s0 & _ & _ & _ & _ & _ & _ & Hp)|(f & s0 & r & _ & _ & _ & _ & _ & _ & E)]]];
+      try discriminate E.
+    exact Hp.
+  Qed.
 
 End C03Examples.
 
@@ -1121,3 +1253,4 @@ Print Assumptions tree_okb_sound.
 Print Assumptions C03Examples.ex_exit_order_applies.
 Print Assumptions C03Examples.ex_entry_order_applies.
 Print Assumptions C03Examples.ex_atomic_applies.
+Print Assumptions C03Examples.ex_entry_order_stab_applies.
